@@ -15,7 +15,7 @@ import (
 
 const verifPath = "/d/rules.json"
 
-var verifContents = []string{"AAAA", "BB", "CCCCCC", "D", "EEE", "FFFFF", "GG", "H"}
+var verifContents = []string{"AAAA", "BBBB", "CC", "DD", "EEE", "FFFFF", "GG", "H"} // consecutive versions of equal length included (and the model reports a constant modification time)
 
 func VerifC18File() {
 	rt.MemFS()
